@@ -65,6 +65,17 @@ CLAIMS['C13'] = {
     'design': 'DESIGN.md section 5 C13',
 }
 
+CLAIMS['C16'] = {
+    'text': 'raw_string_open and at_raw_string_close are proved, for any marker count (loop contracts, ghost probe and witness indices instead of quantifiers), to accept exactly opening / closing long brackets of level n (both directions), the opening rule skipping exactly one immediately following line ending; raw_string_until (both forms) is proved to stop at the first position where its condition holds, against an oracle condition that must be called with the marker size; raw_string::match is proved against stubs carrying those contracts: success consumes through the closing bracket, failure without open or without close restores the cursor when rewinding is required.',
+    'note': '"first closing bracket of the same level" is the composition of the until protocol with the close predicate (paper step); Open/Marker/Close are the Lua characters of the instantiation; the content action span is C04 on the real dispatcher.',
+    'design': 'DESIGN.md section 5 C16',
+}
+CLAIMS['C18'] = {
+    'text': 'limit_bytes (bytes_guard), check_bytes and limit_depth (depth_guard, input_with_depth) on the real bodies: while the guarded rule (an oracle stub) runs, the end of the input is exactly min(real end, start of the match + Maximum) (stub precondition, for a match starting anywhere in the window) and the depth counter is entry + 1 <= Maximum; the end and the depth counter are restored on success, local failure and exception; a parse_error is raised exactly when the depth is exceeded / only when the limit was hit.',
+    'note': 'Maximum values are those of the instantiations (6 bytes, depth 3); the guarded rule is an oracle stub.',
+    'design': 'DESIGN.md section 5 C18',
+}
+
 NOT_APPLICABLE = {
     'C14': 'language equality between a recursive grammar and RFC 8259 is not a per-function contract; json.hpp contains no function bodies (DESIGN.md section 5, C14)',
 }
